@@ -150,19 +150,25 @@ var (
 
 func loadFindings() {
 	kfOpen = map[string]Finding{}
-	b, err := os.ReadFile(filepath.Join(GetEnv().Root, "known_findings.json"))
-	if err != nil {
-		return
-	}
-	var f struct {
-		Findings []Finding `json:"findings"`
-	}
-	if json.Unmarshal(b, &f) != nil {
-		return
-	}
-	for _, x := range f.Findings {
-		if x.Status == "open" {
-			kfOpen[x.ID] = x
+	files := []string{filepath.Join(GetEnv().Root, "known_findings.json")}
+	more, _ := filepath.Glob(filepath.Join(GetEnv().Root, "known.d", "*.json"))
+	sort.Strings(more)
+	files = append(files, more...)
+	for _, fn := range files {
+		b, err := os.ReadFile(fn)
+		if err != nil {
+			continue
+		}
+		var f struct {
+			Findings []Finding `json:"findings"`
+		}
+		if json.Unmarshal(b, &f) != nil {
+			continue
+		}
+		for _, x := range f.Findings {
+			if x.Status == "open" {
+				kfOpen[x.ID] = x
+			}
 		}
 	}
 }
